@@ -122,7 +122,7 @@ CLAIMED["C13"] = ("Inventory clause: every variable with static storage in the p
     "address handed to a parameter through which a callee writes) or listed in an audited table with its allowed writer functions and the "
     "reason it does not couple independent contexts; a new writable global or a new writer is reported. A necessary condition of context "
     "isolation / race freedom on interpreter state. A second audited table covers every call of a libc interface with hidden process-wide "
-    "state (rand/random, strtok, localtime, getenv, strerror ...). Heap and symbol-table disjointness at run time are not decided.",
+    "state that later calls observe (rand/random, strtok, localtime, setenv, setlocale ...). Heap and symbol-table disjointness at run time are not decided.",
     "who-may-write inventory over all units: stores and address escapes of globals resolved through one level of callee write summaries and const-ness of external parameters",
     "3 C13")
 
